@@ -90,11 +90,20 @@ def op_no_unit(rnd, variant=None):
     return "no unit attribute", [], emit(d)
 
 
-def op_second_ref_unit(rnd):
+def op_second_ref_unit(rnd, variant=None):
     d = base(rnd, "ref")
-    extra = defgen.random_units(rnd, 1, False, set())[0]
-    d["extra_attrs"] = ['#[ref_unit(%s, %s)]' % (extra["id"], defgen.rust_str(extra["symbol"]))]
-    return "two reference units", [], emit(d)
+    which = pick(rnd, ["another", "repeated-at-end", "repeated-at-start"], variant)
+    if which == "another":
+        extra = defgen.random_units(rnd, 1, False, set())[0]
+        d["extra_attrs"] = ['#[ref_unit(%s, %s)]' % (extra["id"], defgen.rust_str(extra["symbol"]))]
+        return "two reference units", [], emit(d)
+    # the reference unit attribute written twice, token for token
+    i = next(i for i, u in enumerate(d["units"]) if u["ref"])
+    text = defgen.emit_unit_attr(d["units"][i])
+    if which == "repeated-at-end":
+        d["extra_attrs"] = [text]
+        return "reference unit attribute repeated (at the end)", [], emit(d)
+    return "reference unit attribute repeated (at the start)", [], emit(raw_attr(d, 0, text + "\n" + defgen.emit_unit_attr(d["units"][0])))
 
 
 def op_ref_unit_with_scale(rnd, variant=None):
@@ -133,7 +142,8 @@ def op_args(rnd, variant=None):
     a = args_of(d["units"][i])  # id, symbol, prefix, scale, doc
     which = pick(rnd, ["drop-symbol", "drop-ident", "dup-symbol", "swap-ident-symbol", "symbol-as-ident",
                        "ident-as-string", "sixth-arg", "scale-before-prefix", "empty", "no-parens", "scale-as-string",
-                       "prefix-as-string-before-scale", "doc-as-ident"], variant)
+                       "prefix-as-string-before-scale", "doc-as-ident",
+                       "no-comma-0", "no-comma-1", "no-comma-2", "no-comma-3", "semicolon-2"], variant)
     if which == "drop-symbol":
         b = [a[0]] + a[2:]
     elif which == "drop-ident":
@@ -156,6 +166,12 @@ def op_args(rnd, variant=None):
         b = [a[0], a[1], '"%s"' % a[2], a[3], a[4]]
     elif which == "doc-as-ident":
         b = [a[0], a[1], a[2], a[3], "doc"]
+    elif which.startswith("no-comma-") or which == "semicolon-2":
+        # one separator missing (or wrong): id sym prefix scale doc
+        k = int(which[-1])
+        sep = "; " if which == "semicolon-2" else " "
+        t = "".join(x + (sep if j == k else ", ") for j, x in enumerate(a[:-1])) + a[-1]
+        return "attribute arguments: %s" % which, [], emit(raw_attr(d, i, "#[unit(%s)]" % t))
     elif which == "empty":
         return "attribute arguments: empty list", [], emit(raw_attr(d, i, "#[unit()]"))
     else:
@@ -167,8 +183,12 @@ def op_ref_args(rnd, variant=None):
     d = base(rnd, "ref")
     i = next(i for i, u in enumerate(d["units"]) if u["ref"])
     u = d["units"][i]
-    which = pick(rnd, ["drop-symbol", "five-args", "symbol-as-ident", "empty"], variant)
-    if which == "drop-symbol":
+    which = pick(rnd, ["drop-symbol", "five-args", "symbol-as-ident", "empty", "no-comma-0", "no-comma-1", "no-comma-2"], variant)
+    if which.startswith("no-comma-"):
+        k = int(which[-1])
+        a = [u["id"], defgen.rust_str(u["symbol"]), u["prefix"] or "NONE", defgen.rust_str(u["doc"] or "doc")]
+        t = "#[ref_unit(%s)]" % ("".join(x + (" " if j == k else ", ") for j, x in enumerate(a[:-1])) + a[-1])
+    elif which == "drop-symbol":
         t = "#[ref_unit(%s)]" % u["id"]
     elif which == "five-args":
         t = '#[ref_unit(%s, %s, KILO, "doc", "more")]' % (u["id"], defgen.rust_str(u["symbol"]))
@@ -232,8 +252,8 @@ OPERATORS = [op_no_unit, op_second_ref_unit, op_ref_unit_with_scale, op_missing_
              op_bad_derivation, op_bad_derivation, op_derived_no_ref, op_derived_no_ref]
 
 # number of enumerable sub-variants per operator (every one occurs once per batch)
-VARIANTS = {"op_no_unit": 3, "op_second_ref_unit": 1, "op_ref_unit_with_scale": 4, "op_missing_scale": 1,
-            "op_scale_without_ref": 4, "op_prefix_without_ref": 3, "op_args": 13, "op_ref_args": 4, "op_fields": 4,
+VARIANTS = {"op_no_unit": 3, "op_second_ref_unit": 3, "op_ref_unit_with_scale": 4, "op_missing_scale": 1,
+            "op_scale_without_ref": 4, "op_prefix_without_ref": 3, "op_args": 18, "op_ref_args": 7, "op_fields": 4,
             "op_generics": 5, "op_not_struct": 7, "op_bad_derivation": 24, "op_derived_no_ref": 6}
 
 
